@@ -49,7 +49,11 @@ KERNELS = {
     "KEmptySeq": "fix-empty-sequence-comparison",
     "KEmptySeqTest": "fix-empty-sequence-comparison",
     "KIdentity": "literal-or-new-object-identity",
+    "KStrConcat": "str-concat-in-sequence-literals",
 }
+# kernels that are modelled for C01 / C02 / C07 but are not refactorings in the sense of C08's property text: the model is
+# compared with the real codemod, the behaviour of original and rewritten program is not
+OUT_OF_C08_SCOPE = {"KStrConcat"}
 
 
 def file_of(kernel, text):
@@ -87,7 +91,7 @@ def gen_cases(ctx, n_per_kernel):
             ("KInvert", "num", lambda: M.gen_invert(rng)), ("KGenerator", "num", lambda: M.gen_generator(rng)),
             ("KSetLit", "num", lambda: M.gen_setlit(rng)), ("KHasattr", "obj", lambda: M.gen_hasattr(rng)),
             ("KEmptySeq", "seq", lambda: M.gen_empty_seq(rng)), ("KEmptySeqTest", "seq", lambda: M.gen_empty_seq(rng, top=True)),
-            ("KIdentity", "seq", lambda: M.gen_identity(rng))]
+            ("KIdentity", "seq", lambda: M.gen_identity(rng)), ("KStrConcat", "seq", lambda: M.gen_str_concat(rng))]
     for kernel, profile, g in plan:
         for _ in range(n_per_kernel):
             e = g()
@@ -239,7 +243,7 @@ def replay_of(c):
 FRAGMENT_KERNELS = {
     "kernel_combine_base": ["KCombineSW", "KCombineInst"], "kernel_combine_sw": ["KCombineSW"], "kernel_combine_inst": ["KCombineInst"],
     "kernel_invert": ["KInvert"], "kernel_generator": ["KGenerator"], "kernel_set_literal": ["KSetLit"], "kernel_hasattr": ["KHasattr"],
-    "kernel_empty_seq": ["KEmptySeq", "KEmptySeqTest"], "kernel_identity": ["KIdentity"],
+    "kernel_empty_seq": ["KEmptySeq", "KEmptySeqTest"], "kernel_identity": ["KIdentity"], "kernel_str_concat": ["KStrConcat"],
 }
 
 
@@ -307,6 +311,9 @@ def judge(ctx, cases, bad):
         for n in classes:
             ctx.count("class:" + CLASSES[n])
         differs = c["obs"] != c["obs_after"]
+        if k in OUT_OF_C08_SCOPE:
+            ctx.count("out_of_c08_scope:" + ("differs" if differs else "same"))
+            differs = False
         guard = i not in bad["guard_holds"]
         if guard:
             ctx.count("guard_holds")
@@ -336,7 +343,7 @@ def kernel_programs(ctx, cases, bad):
     rng = ctx.rng
     by = {}
     for i, c in enumerate(cases):
-        if c["cli_failed"] or not c["impl_changed"] or c["obs"] != c["obs_after"] or i in bad["guard_holds"] or c["kernel"] == "KEmptySeqTest" \
+        if c["cli_failed"] or not c["impl_changed"] or c["obs"] != c["obs_after"] or i in bad["guard_holds"] or c["kernel"] in ("KEmptySeqTest", "KStrConcat") \
                 or c["kernel"] in unjudged_kernels(ctx):
             continue
         by.setdefault(c["kernel"], []).append(c)
